@@ -8,8 +8,8 @@ pub mod vcrash;
 pub mod vtrace;
 
 pub fn silence_iceoryx_log() {
-    if std::env::var("VERIF_LOG").is_ok() {
-        iceoryx2_log::set_log_level(iceoryx2_log::LogLevel::Trace);
+    if let Ok(v) = std::env::var("VERIF_LOG") {
+        iceoryx2_log::set_log_level(if v == "trace" { iceoryx2_log::LogLevel::Trace } else { iceoryx2_log::LogLevel::Debug });
         return;
     }
     iceoryx2_log::set_log_level(iceoryx2_log::LogLevel::Fatal);
